@@ -16,56 +16,63 @@ use core::marker::PhantomData;
 use core::mem::{size_of, MaybeUninit};
 use core::ptr::NonNull;
 
-// ---- "state at the rejection point" inspector, run by the assert_failed stub (Kani only)
-pub static mut INSPECT_MODE: u8 = 0; // 0 none, 1 unchanged, 2 valid prefix
-pub static mut INSPECT_FN: Option<fn()> = None;
-pub static mut VEC_PTR: *const () = core::ptr::null();
-pub static mut SNAP: Model = Model::new();
+// ---- "state at the rejection point" inspector, run by the assert_failed stub (Kani only).
+// Dispatch is a trait-object call (Kani restricts vtable targets to the impls of `Inspect`); a plain
+// `fn()` pointer would make CBMC consider every address-taken `fn()` of the program.
+pub trait Inspect {
+    fn inspect(&self);
+}
+pub struct Insp<Tr: ?Sized + Trait, B: Backend, E: Elem> {
+    v: *const AnyVec<Tr, B>,
+    snap: Model,
+    mode: u8, // 0 none, 1 unchanged, 2 valid prefix
+    ph: PhantomData<E>,
+}
+impl<Tr: ?Sized + Trait, B: Backend, E: Elem> Inspect for Insp<Tr, B, E> {
+    fn inspect(&self) {
+        unsafe {
+            let v = &*self.v;
+            INSPECTED = true;
+            if self.mode == 1 {
+                vp_assert!(v.len() == self.snap.len, "VP: vector length changed before a type mismatch was rejected");
+                check_vec::<Tr, B, E>(v, &self.snap);
+            } else if self.mode == 2 {
+                vp_assert!(v.len() <= self.snap.len && v.len() <= v.capacity(), "VP: vector invalid at the point a mismatched splice item is rejected");
+                let t = v.downcast_ref::<E>().unwrap();
+                let s = t.as_slice();
+                let j = any_usize();
+                if j < s.len() {
+                    check_elem::<E>(&s[j], self.snap.id[j], self.snap.tag[j]);
+                }
+            }
+        }
+    }
+}
+pub static mut INSPECT_OBJ: Option<*const dyn Inspect> = None;
 pub static mut INSPECTED: bool = false;
 
 pub fn reset() {
     unsafe {
-        INSPECT_MODE = 0;
-        INSPECT_FN = None;
-        VEC_PTR = core::ptr::null();
-        SNAP = Model::new();
+        INSPECT_OBJ = None;
         INSPECTED = false;
     }
 }
 
 pub fn at_type_mismatch() {
     unsafe {
-        if let Some(f) = INSPECT_FN {
-            f();
+        if let Some(p) = INSPECT_OBJ {
+            (*p).inspect();
         }
     }
 }
 
-fn inspect_mono<Tr: ?Sized + Trait, B: Backend, E: Elem>() {
-    unsafe {
-        let v = &*(VEC_PTR as *const AnyVec<Tr, B>);
-        INSPECTED = true;
-        if INSPECT_MODE == 1 {
-            vp_assert!(v.len() == SNAP.len, "VP: vector length changed before a type mismatch was rejected");
-            check_vec::<Tr, B, E>(v, &SNAP);
-        } else if INSPECT_MODE == 2 {
-            vp_assert!(v.len() <= SNAP.len && v.len() <= v.capacity(), "VP: vector invalid at the point a mismatched splice item is rejected");
-            let t = v.downcast_ref::<E>().unwrap();
-            let s = t.as_slice();
-            let j = any_usize();
-            if j < s.len() {
-                check_elem::<E>(&s[j], SNAP.id[j], SNAP.tag[j]);
-            }
-        }
-    }
+/// registers the inspector; the returned box-like value must stay alive until the call under test returned
+pub fn arm<Tr: ?Sized + Trait, B: Backend, E: Elem>(v: &AnyVec<Tr, B>, m: &Model, mode: u8) -> Insp<Tr, B, E> {
+    Insp { v: v as *const AnyVec<Tr, B>, snap: *m, mode, ph: PhantomData }
 }
-
-pub fn arm<Tr: ?Sized + Trait, B: Backend, E: Elem>(v: &AnyVec<Tr, B>, m: &Model, mode: u8) {
+pub fn engage<'a>(i: &'a (dyn Inspect + 'a)) {
     unsafe {
-        VEC_PTR = v as *const AnyVec<Tr, B> as *const ();
-        SNAP = *m;
-        INSPECT_MODE = mode;
-        INSPECT_FN = Some(inspect_mono::<Tr, B, E>);
+        INSPECT_OBJ = Some(core::mem::transmute::<*const (dyn Inspect + 'a), *const (dyn Inspect + 'static)>(i as *const (dyn Inspect + 'a)));
     }
 }
 
@@ -142,7 +149,8 @@ pub fn offer_type<Tr: ?Sized + Trait, B: Backend, V: Elem + SatisfyTraits<Tr>, O
     let idx = p.idx.get();
     assume(idx <= m.len);
     let same = TypeId::of::<V>() == TypeId::of::<O>();
-    arm::<Tr, B, V>(&v, &m, 1);
+    let insp = arm::<Tr, B, V>(&v, &m, 1);
+    engage(&insp);
     let mut act = || match entry {
         Entry::PushWrapper => v.push(AnyValueWrapper::new(O::mk())),
         Entry::InsertWrapper => v.insert(idx, AnyValueWrapper::new(O::mk())),
@@ -201,7 +209,8 @@ pub fn splice_type<Tr: ?Sized + Trait, B: Backend, V: Elem + SatisfyTraits<Tr>, 
     if !B::RESIZABLE {
         assume(m.len - (e - s) + n + 1 <= v.capacity());
     }
-    arm::<Tr, B, V>(&v, &m, 2);
+    let insp = arm::<Tr, B, V>(&v, &m, 2);
+    engage(&insp);
     let mut slots: [MaybeUninit<V>; RMAX] = unsafe { MaybeUninit::uninit().assume_init() };
     let _ = fill_slots::<V>(&mut slots, n);
     let sp = slots.as_mut_ptr() as *mut V;
@@ -273,13 +282,17 @@ pub fn swap_type<Tr: ?Sized + Trait, B: Backend, V: Elem + SatisfyTraits<Tr>, O:
     let same = TypeId::of::<V>() == TypeId::of::<O>();
     let mut other = O::mk();
     let op = &mut other as *mut O;
+    let mut engage_swap: Option<Insp<Tr, B, V>> = None;
     if !same {
         // with a removal handle the vector is (legitimately) shortened while the handle lives
         let mode = match pair {
             SwapPair::HandleWrapper | SwapPair::HandleRaw => 0,
             _ => 1,
         };
-        arm::<Tr, B, V>(&v, &m, mode);
+        engage_swap = Some(arm::<Tr, B, V>(&v, &m, mode));
+    }
+    if let Some(i) = engage_swap.as_ref() {
+        engage(i);
     }
     let mut act = || match pair {
         SwapPair::ElemMutWrapper => {
